@@ -1,6 +1,8 @@
 package main
 
 import (
+	"sort"
+	"regexp"
 	"fmt"
 	"go/ast"
 	"go/types"
@@ -681,6 +683,41 @@ func ruleLayEvalOrder(c *Ctx, r *R) {
 	if n == 0 {
 		r.undecided("eval order", c.Pos(sc.Clause), "no path of compile(\"call\") emits a call of a compiled function operand")
 		return
+	}
+	// the predicate that decides "this code contains a call" must know every calling opcode,
+	// also the fused ones: operands may have been optimised already (the right operand of && / ||)
+	if _, err := c.handlerNets(); err == nil && len(callingOpcodesSeen) > 0 {
+		preds := map[string]bool{}
+		for _, p := range cl.Paths {
+			for _, cd := range p.St.Conds {
+				for _, m := range regexp.MustCompile(`(\w*[cC]all\w*)\(seq:`).FindAllStringSubmatch(cd.String(), -1) {
+					preds[m[1]] = true
+				}
+			}
+		}
+		for name := range preds {
+			fd := c.Func(name)
+			if fd == nil || fd.Body == nil {
+				continue
+			}
+			listed := map[string]bool{}
+			ast.Inspect(fd.Body, func(nd ast.Node) bool {
+				if e, ok := nd.(ast.Expr); ok {
+					if nm := c.codeConstName(e); nm != "" {
+						listed[nm] = true
+					}
+				}
+				return true
+			})
+			var missing []string
+			for op := range callingOpcodesSeen {
+				if !listed[op] {
+					missing = append(missing, strings.TrimPrefix(op, "code"))
+				}
+			}
+			sort.Strings(missing)
+			r.check(len(missing) == 0, "call opcodes "+name, c.Pos(fd), "recognises every opcode whose handler calls a function", name+" does not recognise "+strings.Join(missing, ", ")+" although their handlers invoke a function: an operand that was already optimised (the right operand of && / ||, a case expression) hides its call from the evaluation-order decision, so `pick()(on && check())` runs check before pick with the optimiser on and after it with the optimiser off")
+		}
 	}
 	r.check(bad == "", "eval order", c.Pos(sc.Clause), "arguments precede the function operand only when they cannot both contain calls",
 		"compile(\"call\") emits the arguments before the function operand on a path that has not established that they do not both contain calls ("+bad+"): `s.pop().sub(s.pop())` pops the argument first (-9 instead of 9), `getF()(arg())` runs arg before getF")
